@@ -70,7 +70,8 @@ Record sampler := { s_names : list string;
                    s_reach : bool;    (* MPS: it is the out_/w_mps_quantizer of some layer, i.e. update_softmax_options reaches it;
                                          the others keep the defaults of MPSBaseQtz.__init__ (soft-max, not hard, temperature 1) *)
                    s_alpha : list (list Q); s_prec : list Q; s_temp : Q; s_theta : tnf }.
-Record pers := { p_net : list (string * Z); p_masks : list pmask; p_layers : list player; p_samplers : list sampler }.
+Record pers := { p_bn : bool;     (* some BatchNorm layer tracks running statistics: a training-mode forward writes them *)
+                 p_net : list (string * Z); p_masks : list pmask; p_layers : list player; p_samplers : list sampler }.
 
 Record trans := { training : bool; disc : bool; hard : bool; smp : skind; sn_temp : Q;
                   sn_thetas : list tnf;                         (* SuperNetCombiner.theta_alpha: not a buffer *)
@@ -125,7 +126,7 @@ Record cfg := { c_meth : method; c_pers : pers;      (* the seed network after c
                 c_training : bool; c_disc : bool; c_hard : bool; c_smp : skind; c_temp : Q }.
 Definition fresh (c : cfg) : state :=
   {| meth := c_meth c;
-     pe := {| p_net := p_net (c_pers c); p_masks := p_masks (c_pers c); p_layers := p_layers (c_pers c);
+     pe := {| p_bn := p_bn (c_pers c); p_net := p_net (c_pers c); p_masks := p_masks (c_pers c); p_layers := p_layers (c_pers c);
               p_samplers := map (fun s => {| s_names := s_names s; s_reach := s_reach s; s_alpha := s_alpha s; s_prec := s_prec s;
                                              s_temp := if s_reach s then c_temp c else 1; s_theta := s_theta s |}) (p_samplers (c_pers c)) |};
      tr := {| training := c_training c; disc := c_disc c; hard := c_hard c; smp := c_smp c; sn_temp := c_temp c;
@@ -165,6 +166,10 @@ Definition set_mode (b : bool) (s : state) : state :=
   with_tr s {| training := b; disc := disc (tr s); hard := hard (tr s); smp := smp (tr s); sn_temp := sn_temp (tr s);
                sn_thetas := sn_thetas (tr s); ranges := ranges (tr s) |}.
 
+Definition mps_resample (k : skind) (trn h : bool) (noise : nat) (q : sampler) : sampler :=
+  set_theta q (if s_reach q then mps_sample k trn h (s_temp q) noise (s_alpha q) (s_theta q)
+               else mps_sample Sm trn false (s_temp q) noise (s_alpha q) (s_theta q)).
+
 (* the forward pass: every sampler is re-sampled (MPS: into the theta_alpha BUFFER, SuperNet: into the attribute),
    weight ranges and bias scales are recomputed from the weights and the new coefficients *)
 Definition forward (noise : nat) (s : state) : state :=
@@ -172,10 +177,9 @@ Definition forward (noise : nat) (s : state) : state :=
   match meth s with
   | PIT => s
   | MPS =>
-      let ss := map (fun q => set_theta q (if s_reach q then mps_sample (smp t) (training t) (hard t) (s_temp q) noise (s_alpha q) (s_theta q)
-                                               else mps_sample Sm (training t) false (s_temp q) noise (s_alpha q) (s_theta q))) (p_samplers p) in
+      let ss := map (mps_resample (smp t) (training t) (hard t) noise) (p_samplers p) in
       {| meth := MPS;
-         pe := {| p_net := p_net p; p_masks := p_masks p; p_layers := p_layers p; p_samplers := ss |};
+         pe := {| p_bn := p_bn p; p_net := p_net p; p_masks := p_masks p; p_layers := p_layers p; p_samplers := ss |};
          tr := {| training := training t; disc := disc t; hard := hard t; smp := smp t; sn_temp := sn_temp t;
                   sn_thetas := sn_thetas t; ranges := Some (p_net p, map s_theta ss) |} |}
   | SN =>
@@ -191,7 +195,7 @@ Definition step (s : state) (o : op) : state :=
   let t := tr s in let p := pe s in
   match o with
   | OStep n' mp' al' =>
-      with_pe s {| p_net := set_net (p_net p) n';
+      with_pe s {| p_bn := p_bn p; p_net := set_net (p_net p) n';
                    p_masks := zip_with set_mask (fun k => k) (p_masks p) mp';
                    p_layers := p_layers p;
                    p_samplers := zip_with set_alpha (fun q => q) (p_samplers p) al' |}
@@ -206,7 +210,7 @@ Definition step (s : state) (o : op) : state :=
       | PIT => s
       | MPS =>     (* qtz.py update_softmax_options: the sampler is re-chosen from the arguments of THIS call *)
           {| meth := MPS;
-             pe := {| p_net := p_net p; p_masks := p_masks p; p_layers := p_layers p;
+             pe := {| p_bn := p_bn p; p_net := p_net p; p_masks := p_masks p; p_layers := p_layers p;
                       p_samplers := match ot with Some x => map (set_temp x) (p_samplers p) | None => p_samplers p end |};
              tr := {| training := training t; disc := disc t; hard := upd oh (hard t);
                       smp := if is_true od then NoSamp else if is_true og then Gs else Sm;
@@ -256,7 +260,9 @@ Record observation := {
   o_out : bool * list tnf;                     (* outputs: mode, coefficients used by the forward pass (PIT: binarized masks = persisted) *)
   o_cost : list tnf * list (Q * Q);            (* get_cost: coefficients / effective sizes *)
   o_summary : list tnf;                        (* summary(): SuperNetCombiner.summary re-samples; PIT/MPS read persisted tensors *)
-  o_export : option (list (string * Z) * list tnf) }.   (* export(): arg-max of persisted logits + MPS ranges/scales *)
+  o_export : option (list (string * Z) * list tnf) * list tnf }.
+     (* export(): arg-max of persisted logits + MPS ranges/scales; BatchNorm statistics written by a training-mode forward
+        depend on the coefficients that forward used *)
 Definition obs (s : state) : observation :=
   let t := tr s in
   {| o_out := (training t, thetas s);
@@ -264,7 +270,7 @@ Definition obs (s : state) : observation :=
      o_summary := match meth s with
                   | SN => map (fun q => sn_sample (smp t) (training t) (hard t) (sn_temp t) 0 (s_alpha q)) (p_samplers (pe s))
                   | _ => [] end;
-     o_export := match meth s with MPS => ranges t | _ => None end |}.
+     o_export := (match meth s with MPS => ranges t | _ => None end, if p_bn (pe s) && training t then thetas s else []) |}.
 Definition observe (s : state) : pers * observation := (pe s, obs s).
 
 (* transient options that the constructor sets from its arguments *)
@@ -298,11 +304,11 @@ Definition obs_eqb (a b : observation) : bool * bool * bool * bool :=
   (Bool.eqb (fst (o_out a)) (fst (o_out b)) && tl_eqb (snd (o_out a)) (snd (o_out b)),
    tl_eqb (fst (o_cost a)) (fst (o_cost b)) && list_eqb (fun x y => q_eqb (fst x) (fst y) && q_eqb (snd x) (snd y)) (snd (o_cost a)) (snd (o_cost b)),
    tl_eqb (o_summary a) (o_summary b),
-   match o_export a, o_export b with
+   match fst (o_export a), fst (o_export b) with
    | None, None => true
    | Some (n1, t1), Some (n2, t2) => net_eqb n1 n2 && tl_eqb t1 t2
    | _, _ => false
-   end).
+   end && tl_eqb (snd (o_export a)) (snd (o_export b))).
 
 (* ---------------------------------------------------------------- run_* helpers evaluated by vlib/c17.py *)
 Definition skind_id (k : skind) : Z := match k with Sm => 0%Z | Gs => 1%Z | NoSamp => 2%Z end.
